@@ -16,7 +16,11 @@ INFO = {
 
 def strategy():
     from vlib import gen_config as G
-    return G.config(max_levels=1)
+    from hypothesis import strategies as st
+    # mostly the quantifier's shape (application-level + route-level); one case in five also embeds the application,
+    # where every intermediate construction has to be satisfiable on its own
+    return st.one_of(G.config(max_levels=1), G.config(max_levels=1), G.config(max_levels=1), G.config(max_levels=1),
+                     G.config(max_levels=3, free_p=0.06))
 
 
 def classify_reject(cfg, rej):
@@ -70,6 +74,7 @@ def body(cfg, ctx, sources=False):
             ctx.nt(cfg, sample=len(ctx.samples) < 2)
         return
     ctx.event('accepted')
+    ctx.event('levels-%d' % len(cfg['levels']))
     ctx.event('kind-' + cfg['route'].get('ep_kind', 'func'))
     if J.kw_only(cfg):
         ctx.event('accepted-with-kwonly')
